@@ -3,7 +3,7 @@
    internal/layer2/announcer.go: each method is Lock/RLock; guarded accesses only; Unlock/RUnlock
    (readers contain no write). *)
 From Coq Require Import List String.
-From Verif Require Import Model.Lock Model.AnnouncerSkel.
+From Verif Require Import Model.Lock.
 From C13gen Require Import LockFacts.
 Import ListNotations.
 Local Open Scope string_scope.
@@ -20,12 +20,3 @@ Theorem announcer_methods_are_critical_sections :
   sections_ok funcs "Announce.RWMutex" announcer_methods = true.
 Proof. vm_compute. reflexivity. Qed.
 Print Assumptions announcer_methods_are_critical_sections.
-
-(* structural tie of the hand-written transcription (Model/Announcer.v, Model/AnnouncerExt.v) to the
-   code: the loops of the transcribed methods and the way they are left are still what the
-   model was transcribed from *)
-Definition D_skeleton_diffs := Eval vm_compute in skeleton_diffs skeletons.
-Print D_skeleton_diffs.
-Theorem announcer_skeleton_matches : skeletons_match skeletons = true.
-Proof. vm_compute. reflexivity. Qed.
-Print Assumptions announcer_skeleton_matches.
